@@ -59,7 +59,7 @@ func padTokens(n int) []tok.Tok {
 	return out
 }
 
-var corrKinds = []string{"flip-in-token", "wrong-key", "truncate-entry", "mislabel", "zero-section", "oversize-section", "other-codec-cid", "flip-anywhere", "drop-last-byte"}
+var corrKinds = []string{"relabel-as-other-entry", "relabel-as-other-entry", "duplicate-section", "flip-in-token", "wrong-key", "truncate-entry", "mislabel", "zero-section", "oversize-section", "other-codec-cid", "flip-anywhere", "drop-last-byte"}
 
 func write(w container.Writer, format string, stream bool) ([]byte, error) {
 	if !stream {
@@ -254,6 +254,35 @@ func run(c *h.Ctx, cs Case) {
 					out = []byte(base64.StdEncoding.EncodeToString(raw))
 				} else {
 					out = raw
+				}
+			}
+		case "relabel-as-other-entry", "duplicate-section":
+			// CAR only, on the written bytes: a section's CID field is overwritten with the CID of ANOTHER section of
+			// the same file (earlier or later) - the data under it no longer hashes to its label; or a whole
+			// section is repeated (same CID, same data: harmless, the set is unchanged)
+			if isCar {
+				raw := out
+				if isB64 {
+					raw, _ = base64.StdEncoding.DecodeString(string(out))
+				}
+				secs, _, perr := ctr.CarSections(raw)
+				if perr == nil && len(secs) >= 2 {
+					j := corr.Entry % len(secs)
+					i := (j + 1 + corr.Off%(len(secs)-1)) % len(secs)
+					nr := append([]byte{}, raw...)
+					if corr.Kind == "duplicate-section" {
+						nr = append(append(append([]byte{}, raw[:secs[j].End]...), raw[secs[i].Start:secs[i].End]...), raw[secs[j].End:]...)
+					} else if secs[i].Cid.ByteLen() == secs[j].Cid.ByteLen() && !secs[i].Cid.Equals(secs[j].Cid) {
+						// the CID sits right after the section's uvarint length
+						_, n := binary.Uvarint(raw[secs[j].Start:])
+						copy(nr[secs[j].Start+n:], secs[i].Cid.Bytes())
+						mustFail = true
+					}
+					if isB64 {
+						out = []byte(base64.StdEncoding.EncodeToString(nr))
+					} else {
+						out = nr
+					}
 				}
 			}
 		case "flip-anywhere":
